@@ -9,6 +9,7 @@ package main
 // looks odd, and the first ones): the verdict is TLC's.
 
 import (
+	"bytes"
 	"errors"
 	"fmt"
 	"net"
@@ -339,7 +340,13 @@ func churnDgram(tr *hx.Trace, dur time.Duration, keepFirst int) {
 	deadline := time.Now().Add(dur)
 	n, written, odd := 0, 0, 0
 	for time.Now().Before(deadline) {
-		evs, isOdd := churnDgramBatch(addr, 40, n)
+		var evs []cev
+		var isOdd bool
+		if n%3 == 2 {
+			evs, isOdd = churnReadersBatch(addr, 40)
+		} else {
+			evs, isOdd = churnDgramBatch(addr, 40, n)
+		}
 		n++
 		if isOdd {
 			odd++
@@ -354,4 +361,109 @@ func churnDgram(tr *hx.Trace, dur time.Duration, keepFirst int) {
 		}
 	}
 	tr.Emit(map[string]any{"ev": "Churn", "batches": n, "written": written, "odd": odd, "what": "dgram"})
+}
+
+// churnReadersBatch: SEVERAL reads in flight on one packet handle while datagrams of different lengths arrive back to back
+// from different sockets: every read must return one datagram whole, with the length and the source address of that datagram.
+func churnReadersBatch(addr string, items int) (evs []cev, odd bool) {
+	mgr := service.NewListenerManager()
+	const nReaders = 4
+	gs := make([]*churnG, nReaders+1)
+	for i := range gs {
+		gs[i] = &churnG{}
+	}
+	var oddFlag atomic.Bool
+	pc, err := mgr.ListenPacket(addr)
+	g := gs[0]
+	g.rec(map[string]any{"ev": "ListenEnd", "t": 0, "h": 1, "k": 1, "ok": err == nil, "err": fmt.Sprint(err), "foreign": false})
+	if err != nil {
+		return g.evs, true
+	}
+	type seen struct {
+		n    int
+		from string
+	}
+	got := make([]atomic.Pointer[seen], items+1)
+	var delivered atomic.Int32
+	var wg sync.WaitGroup
+	for r := 1; r <= nReaders; r++ {
+		wg.Add(1)
+		go func(r int) {
+			defer wg.Done()
+			buf := make([]byte, 2048)
+			for {
+				gs[r].rec(map[string]any{"ev": "AcceptStart", "t": r, "h": 1})
+				n, raddr, err := pc.ReadFrom(buf)
+				if err != nil {
+					res := "err"
+					if errors.Is(err, net.ErrClosed) {
+						res = "closed"
+					}
+					gs[r].rec(map[string]any{"ev": "AcceptEnd", "t": r, "h": 1, "res": res, "item": 0})
+					return
+				}
+				id, want := parseItemLen(string(buf[:min(n, 64)]))
+				gs[r].rec(map[string]any{"ev": "AcceptEnd", "t": r, "h": 1, "res": "item", "item": id})
+				if want != n {
+					gs[r].rec(map[string]any{"ev": "Truncated", "t": r, "h": 1, "item": id, "size": n, "want": want})
+					oddFlag.Store(true)
+				}
+				if id >= 1 && id <= items {
+					got[id].Store(&seen{n, fmt.Sprint(raddr)})
+				}
+				delivered.Add(1)
+			}
+		}(r)
+	}
+	socks := make([]net.Conn, 4)
+	for i := range socks {
+		c, err := net.Dial("udp", addr)
+		if err != nil {
+			oddFlag.Store(true)
+			continue
+		}
+		socks[i] = c
+		defer c.Close()
+	}
+	from := make([]string, items+1)
+	for i := 1; i <= items; i++ {
+		c := socks[i%len(socks)]
+		if c == nil {
+			continue
+		}
+		size := 40 + (i*37)%300
+		msg := []byte(fmt.Sprintf("item %d %d\n", i, size))
+		msg = append(msg, bytes.Repeat([]byte{'x'}, size-len(msg))...)
+		g.rec(map[string]any{"ev": "ConnectStart", "item": i, "k": 1})
+		_, err := c.Write(msg)
+		from[i] = c.LocalAddr().String()
+		g.rec(map[string]any{"ev": "Connect", "item": i, "k": 1, "ok": err == nil, "kind": "p"})
+	}
+	deadline := time.Now().Add(300 * time.Millisecond)
+	for int(delivered.Load()) < items && time.Now().Before(deadline) {
+		time.Sleep(time.Millisecond)
+	}
+	for i := 1; i <= items; i++ {
+		s := got[i].Load()
+		if s == nil {
+			oddFlag.Store(true)
+			continue
+		}
+		if s.from != from[i] {
+			oddFlag.Store(true)
+		}
+		g.rec(map[string]any{"ev": "AddrCheck", "item": i, "sender": from[i], "atReturn": s.from, "atEnd": s.from})
+	}
+	g.rec(map[string]any{"ev": "CleanupStart"})
+	g.rec(map[string]any{"ev": "CloseStart", "t": 0, "h": 1})
+	pc.Close()
+	g.rec(map[string]any{"ev": "CloseEnd", "t": 0, "h": 1})
+	wg.Wait()
+	for _, x := range gs {
+		x.mu.Lock()
+		evs = append(evs, x.evs...)
+		x.mu.Unlock()
+	}
+	sort.Slice(evs, func(i, j int) bool { return evs[i].seq < evs[j].seq })
+	return evs, oddFlag.Load()
 }
